@@ -35,6 +35,7 @@ type Stats struct {
 	Outcomes      map[uint64]int
 	StepCaps      int
 	BudgetHit     bool
+	StateCapHit   bool
 	BoundDone     int
 	TimerFireRuns int
 }
@@ -48,6 +49,7 @@ type Explorer struct {
 	Deadline  time.Time
 	Stats     Stats
 	StopFirst bool
+	MaxStates int // memory guard: stop (exhaustive=false) when the visited table exceeds this
 	// Shard restricts the exploration to the top-level subtrees whose index
 	// mod ShardN == Shard (ShardN == 0: everything).
 	Shard, ShardN int
@@ -126,6 +128,16 @@ func (e *Explorer) Explore() []Violation {
 			}
 		}
 		if len(viols) > 0 && e.StopFirst {
+			break
+		}
+		if out.StepCap {
+			// a run that hit the step cap did not terminate (livelock or an
+			// unbounded loop): its thousands of choice points are not expanded
+			continue
+		}
+		if e.MaxStates > 0 && len(visited) > e.MaxStates {
+			e.Stats.BudgetHit = true
+			e.Stats.StateCapHit = true
 			break
 		}
 		// expand alternatives at the new points
